@@ -30,6 +30,8 @@ ResolveCases == {[op |-> "resolve", operands |-> s, tree |-> Leaf(1), ref |-> Re
                      : s \in Seqs(n)} : n \in 2..(IF Quick THEN 3 ELSE 4)}
 BackendCases == {[op |-> "backend", operands |-> s, tree |-> Leaf(1), ref |-> SumSeq([i \in 1..3 |-> Pool[s[i]]])]
                      : s \in (IF Quick THEN RandomSubset(40, Seqs(3)) ELSE Seqs(3))}
+DefaultCases == {[op |-> "backend_default", operands |-> s, tree |-> Leaf(1), ref |-> SumSeq([i \in 1..3 |-> Pool[s[i]]])]
+                     : s \in (IF Quick THEN RandomSubset(40, Seqs(3)) ELSE Seqs(3))}
 \* the same backend object asked for another output format through convert_rule() after a conversion in the
 \* default format: class pipeline, user pipeline, then the pipeline of the format that is ASKED FOR
 SwitchCases == {[op |-> "backend_switch", operands |-> s, tree |-> Leaf(1), ref |-> SumSeq([i \in 1..3 |-> Pool[s[i]]])]
@@ -42,7 +44,7 @@ ReuseCases == {[op |-> o, operands |-> s, tree |-> Leaf(1),
 \* a + b is built, then b is summed with c, then a + b is used: it still is the pipeline with a's parts followed by b's
 ThirdCases == {[op |-> "reuse_then_third", operands |-> s, tree |-> Leaf(1), ref |-> SumSeq([i \in 1..2 |-> Pool[s[i]]])]
                      : s \in {t \in Seqs(3) : t[2] \in {7, 8} \/ t[1] = 8}}
-ASSUME LET S == SetToSeq(ThirdCases \cup SumCases \cup ResolveCases \cup BackendCases \cup SwitchCases \cup ReuseCases)
+ASSUME LET S == SetToSeq(DefaultCases \cup ThirdCases \cup SumCases \cup ResolveCases \cup BackendCases \cup SwitchCases \cup ReuseCases)
        IN  ndJsonSerialize(IOEnv.VERIF_OUT, [i \in 1..Len(S) |-> [id |-> i, pool |-> Pool] @@ S[i]])
 Init == x = 0
 Next == UNCHANGED x
